@@ -36,7 +36,9 @@ LOOKALIKE = ["classes.dex", "classes2.dex", "classes3.dex", "classes10.dex", "cl
              "lib/a/classes.dex", "lib/b/classes2.dex", "assets/plugin/myclasses2.dex", "/classes.dex", "./classes.dex",
              "classes1e1.dex", "classes٣", "classes99999999999999999999.dex", "classes\n2.dex", "classes2.dex\n", "\nclasses.dex"]
 OTHER = ["AndroidManifest.xml", "resources.arsc", "res/layout/main.xml", "META-INF/MANIFEST.MF", "é/ü.txt", "日本/語.bin",
-         "a/b/c/d/e.txt", "empty", "dir/", "with space.txt", "assets/\U0001F600.png", "x" * 200, "lib/arm64-v8a/libfoo.so"]
+         "a/b/c/d/e.txt", "empty", "dir/", "with space.txt", "assets/\U0001F600.png", "x" * 200, "lib/arm64-v8a/libfoo.so",
+         # names that are not in Unicode normal form C, and both spellings of one name
+         "cafe\u0301.txt", "caf\u00e9.txt", "\u1100\u1161.bin", "res/\u212b.x", "A\u030a.x", "\u0958.dat"]
 
 
 def gen(rng, tier, ctx):
@@ -106,7 +108,21 @@ def impl(case):
         alldex = [bytes(x) for x in a.get_all_dex()]
     except FileNotPresent:
         alldex = [Err("FileNotPresent")]
-    return [files, got, names, alldex, bool(a.is_multidex())]
+    first = [files, got, names, alldex, bool(a.is_multidex())]
+    # the same questions again on the same object, and after a get_all_dex() generator that was left half-way
+    def alld():
+        try:
+            return [bytes(x) for x in a.get_all_dex()]
+        except FileNotPresent:
+            return [Err("FileNotPresent")]
+    again = [list(a.get_files()), [getf(n) for n in asks], list(a.get_dex_names()), alld(), bool(a.is_multidex())]
+    g = a.get_all_dex()
+    try:
+        next(g)
+    except (StopIteration, FileNotPresent):
+        pass
+    third = alld()
+    return first + [again == first, third == alldex]
 
 
 def is_dex_name(n):
@@ -117,7 +133,11 @@ def oracle(case, res):
     ents, asks = case
     if isinstance(res, Err):
         return "APK() failed on a generated archive: %s %s" % (res.name, res.msg[:100])
-    files, got, names, alldex, multi = res
+    files, got, names, alldex, multi = res[:5]
+    if not res[5]:
+        return "asked a second time, the same APK object gives other answers (files, get_file, get_dex_names, get_all_dex, is_multidex)"
+    if not res[6]:
+        return "get_all_dex() after a half-consumed get_all_dex() generator gives other contents than the first call"
     want_files = [e[0] for e in ents]
     d = {e[0]: e[2] for e in ents}
     if files != want_files:
@@ -200,7 +220,7 @@ def oracle_names(case, res):
 STREAMS = [
     {"name": "archives", "gen": gen, "impl": impl, "coq_header": COQ_HEADER, "coq_type": "archive * list (list Z)",
      "coq_input": coq_input, "coq_obs": "obs_apk", "model_vo": "Apk/FilesModel.vo", "pinned": False, "oracle": oracle,
-     "stats": stats, "shard": 40},
+     "stats": stats, "shard": 40, "canon": lambda r: r[:5]},
     {"name": "names", "gen": gen_names, "impl": impl_names, "coq_header": COQ_HEADER, "coq_type": "list Z",
      "coq_input": lambda c: zlist([ord(x) for x in c]), "coq_obs": "obs_name", "model_vo": "Apk/FilesModel.vo",
      "pinned": False, "oracle": oracle_names},
